@@ -1089,3 +1089,71 @@ def c_sat_len(seed):
         return dict(self=None, u=zint(e['u']), map_level=mlz, d=zdict({}, 'int', 'int'))
     return Case('dd.bdd.BDD._sat_len', seed, build, lambda e: e['b']._sat_len(e['u'], e['map_level'], e['d']), za,
                 lambda e: dict(call='_sat_len', u=e['u'], map_level=e['map_level']), muts=memo_muts('d', lambda d: zdict(d, 'int', 'int')))
+
+
+# ---------------------------------------------------------------------------------------------------------------------
+# image / preimage wrappers under their documented preconditions (primed variable adjacent to its partner)
+def _img_wrapper_case(direction):
+    def c_(seed):
+        def build(rnd):
+            import dd.bdd as D
+            b = D.BDD()
+            npairs = rnd.randint(1, 2)
+            names = []
+            for k in range(npairs):
+                pair = [f'{"ab"[k]}', f'{"cd"[k]}']       # unprimed a/b, primed c/d
+                if rnd.random() < .5:
+                    pair.reverse()
+                names += pair
+            if rnd.random() < .5:
+                names.append('e')
+            for nm in names:
+                b.add_var(nm)
+            unprimed, primed = ['a', 'b'][:npairs], ['c', 'd'][:npairs]
+            allv = list(b.vars)
+
+            def rand_fn(vs):
+                u = b.var(rnd.choice(vs))
+                for _ in range(rnd.randint(0, 3)):
+                    v = b.var(rnd.choice(vs))
+                    u = b.apply(rnd.choice(['and', 'or', 'xor', '=>']), u, v if rnd.random() < .7 else -v)
+                return u
+            trans = rand_fn(allv)
+            if direction == 'image':
+                # the source may mention primed variables too (they are renamed with the rest after the quantification)
+                other = rand_fn(unprimed + (['e'] if 'e' in allv else []) + (primed if rnd.random() < .4 else []))
+                rename = dict(zip(primed, unprimed))            # primed -> unprimed after quantifying the unprimed
+                qvars = set(unprimed)
+            else:
+                other = rand_fn(unprimed + (['e'] if 'e' in allv else []))
+                rename = dict(zip(unprimed, primed))            # target over unprimed, read as primed
+                qvars = set(primed)
+            b.incref(trans); b.incref(other)
+            return dict(b=b, names=allv, trans=trans, other=other, rename=rename, qvars=qvars, forall=rnd.random() < .4, rnd=rnd)
+
+        def call(e):
+            D = _dd()
+            f = D.image if direction == 'image' else D.preimage
+            return f(e['trans'], e['other'], e['rename'], e['qvars'], e['b'], e['forall'])
+
+        def za(e):
+            b = e['b']
+            lev = {b.vars[k]: b.vars[v] for k, v in e['rename'].items()}
+            ren = zdict(lev, 'int', 'int')
+            none = IntVal(0)
+            um, vm = (ren, none) if direction == 'image' else (none, ren)
+            return dict(trans=zint(e['trans']), other=zint(e['other']), u=zint(e['trans']), v=zint(e['other']), rename=None,
+                        umap=um, vmap=vm, qvars=with_len(zset_name(e['qvars']), len(e['qvars'])), bdd=None, forall=BoolVal(e['forall']))
+
+        def extra(e, st):
+            from vlib.vc.contracts_bdd import EI
+            S0 = st['self']
+            return [EI.dom == S0.dom, EI.lvl == S0.lvl, EI.lo == S0.lo, EI.hi == S0.hi, EI.nvars == S0.nvars]
+        return Case(f'dd.bdd.{direction}!observed', seed, build, call, za,
+                    lambda e: dict(call=direction, trans=e['trans'], other=e['other'], rename=e['rename'], qvars=sorted(e['qvars']), forall=e['forall'],
+                                   order=dict(e['b'].vars)), extra=extra)
+    return c_
+
+
+CASES['dd.bdd.image!observed'] = ('dd.bdd.image!observed', _img_wrapper_case('image'))
+CASES['dd.bdd.preimage!observed'] = ('dd.bdd.preimage!observed', _img_wrapper_case('preimage'))
